@@ -47,6 +47,36 @@ theorem sqrt_eight_mul (x : ℝ) : Real.sqrt (8 * x) = 2 * Real.sqrt (2 * x) := 
   have h : (8 : ℝ) * x = 2 ^ 2 * (2 * x) := by ring
   rw [h, Real.sqrt_mul (by norm_num), Real.sqrt_sq (by norm_num)]
 
+/-! ### the pixelisation loss of a sampled elliptical Gaussian -/
+
+/-- the quadratic form of an ellipse with both sigmas ≥ m, at an offset of at most half a pixel in x and in y,
+    is at most (1/2)/m² — whatever the orientation (c² + s² = 1) -/
+theorem quad_form_le (dx dy c s sx sy m : ℝ) (hcs : c ^ 2 + s ^ 2 = 1) (hm : 0 < m) (hsx : m ≤ sx) (hsy : m ≤ sy)
+    (hdx : |dx| ≤ 1 / 2) (hdy : |dy| ≤ 1 / 2) :
+    0 ≤ (dx * c + dy * s) ^ 2 / sx ^ 2 + (dx * s - dy * c) ^ 2 / sy ^ 2 ∧
+    (dx * c + dy * s) ^ 2 / sx ^ 2 + (dx * s - dy * c) ^ 2 / sy ^ 2 ≤ 1 / 2 / m ^ 2 := by
+  have hsx0 : 0 < sx := lt_of_lt_of_le hm hsx
+  have hsy0 : 0 < sy := lt_of_lt_of_le hm hsy
+  have hm2 : 0 < m ^ 2 := by positivity
+  have h1 : m ^ 2 ≤ sx ^ 2 := by nlinarith
+  have h2 : m ^ 2 ≤ sy ^ 2 := by nlinarith
+  have hu : (dx * c + dy * s) ^ 2 / sx ^ 2 ≤ (dx * c + dy * s) ^ 2 / m ^ 2 :=
+    div_le_div_of_nonneg_left (sq_nonneg _) hm2 h1
+  have hw : (dx * s - dy * c) ^ 2 / sy ^ 2 ≤ (dx * s - dy * c) ^ 2 / m ^ 2 :=
+    div_le_div_of_nonneg_left (sq_nonneg _) hm2 h2
+  have hsum : (dx * c + dy * s) ^ 2 + (dx * s - dy * c) ^ 2 = (dx ^ 2 + dy ^ 2) * (c ^ 2 + s ^ 2) := by ring
+  have hdx2 : dx ^ 2 ≤ 1 / 4 := by
+    have := abs_le.mp hdx; nlinarith [this.1, this.2]
+  have hdy2 : dy ^ 2 ≤ 1 / 4 := by
+    have := abs_le.mp hdy; nlinarith [this.1, this.2]
+  refine ⟨by positivity, ?_⟩
+  calc (dx * c + dy * s) ^ 2 / sx ^ 2 + (dx * s - dy * c) ^ 2 / sy ^ 2
+      ≤ (dx * c + dy * s) ^ 2 / m ^ 2 + (dx * s - dy * c) ^ 2 / m ^ 2 := add_le_add hu hw
+    _ = (dx ^ 2 + dy ^ 2) / m ^ 2 := by rw [← add_div, hsum, hcs, mul_one]
+    _ ≤ 1 / 2 / m ^ 2 := by
+        apply div_le_div_of_nonneg_right _ (le_of_lt hm2)
+        linarith
+
 /-! ### the mask of a rendered image -/
 
 theorem rowIdx_render (f : Nat → ℝ) (keep : Nat → Bool) (i : Nat) : ∀ (n j0 : Nat),
